@@ -136,7 +136,7 @@ orc_bytecode_from_program (OrcProgram *p)
           bytecode_append_code (bytecode, ORC_BC_ADD_PARAMETER_INT64);
           break;
         case ORC_PARAM_TYPE_DOUBLE:
-          bytecode_append_code (bytecode, ORC_BC_ADD_PARAMETER_INT64);
+          bytecode_append_code (bytecode, ORC_BC_ADD_PARAMETER_DOUBLE);
           break;
         default:
           ORC_ASSERT(0);
